@@ -559,6 +559,7 @@ func (s *s2) check(commitBase int) {
 	pm := porcupine.Model{
 		Init: func() interface{} { return 0 },
 		Step: func(state, input, output interface{}) (bool, interface{}) {
+			simrt.Heartbeat.Add(1) // analysis is progress too (watchdog food)
 			k := state.(int)
 			ct := byIdx[input.(in).idx]
 			if ct.commit != 0 {
